@@ -23,6 +23,7 @@ import (
 	"github.com/cenkalti/backoff/v4"
 	"github.com/gebn/bmc"
 	"github.com/gebn/bmc/pkg/dcmi"
+	"github.com/gebn/bmc/pkg/iana"
 	"github.com/gebn/bmc/pkg/ipmi"
 	"github.com/google/gopacket"
 )
@@ -80,8 +81,15 @@ var c19Prefs = func() map[refbmc.Suite][]ipmi.CipherSuite {
 
 const c19PwLen = 10
 
+// c19Absolute prefixes a transcript line saying that a result contradicts the worker's own
+// BMC (state carried over from another connection shows there even when the solo run,
+// later in the same process, is affected in the same way).
+const c19Absolute = "ABSOLUTE-MISMATCH: "
+
 // c19Creds holds every worker's password back to back.
 var c19Creds = make([]byte, 65*c19PwLen)
+
+var c19RoundsDone atomic.Int64
 
 var (
 	c19TraceMu   sync.Mutex
@@ -144,6 +152,15 @@ func c19Worker(seed int64, id int, useUDP bool, concurrent bool) (transcript []s
 	sd := &refbmc.SensorDevice{}
 	sd.Set(f1[1]&3, f1[2], []byte{byte(0x30 + id), 0x40, 0})
 	dcm := &refbmc.DCMISensorInfo{PageSize: 2 + id%5, IDs: map[[2]byte][]uint16{{1, 0x40}: {1, 2, 3, uint16(id)}, {1, 0x41}: {9, 8}, {1, 0x42}: {}}}
+	wantDCMI := fmt.Sprintf("%v %v %v", []ipmi.RecordID{1, 2, 3, ipmi.RecordID(id)}, []ipmi.RecordID{9, 8}, []ipmi.RecordID{})
+	if id%3 == 0 {
+		// a BMC that answers the standard entity IDs (and, differently, the DCMI-specific ones too): the
+		// standard ones are what an enumeration must return for it, whatever other BMCs of the fleet need
+		dcm.IDs[[2]byte{1, 0x37}] = []uint16{uint16(0x100 + id), 0x101}
+		dcm.IDs[[2]byte{1, 0x03}] = []uint16{uint16(0x110 + id)}
+		dcm.IDs[[2]byte{1, 0x07}] = nil
+		wantDCMI = fmt.Sprintf("%v %v %v", []ipmi.RecordID{ipmi.RecordID(0x100 + id), 0x101}, []ipmi.RecordID{ipmi.RecordID(0x110 + id)}, []ipmi.RecordID{})
+	}
 	guid := rbytes(r, 16)
 	devid := []byte{0x20, 0x81, byte(id), 0x15, 0x02, 0xbf, 0x57, 0x01, 0x00, 0x34, 0x12, 1, 2, 3, 4}
 	odd := func(e *refbmc.Event) (byte, []byte, bool) {
@@ -153,7 +170,9 @@ func c19Worker(seed int64, id int, useUDP bool, concurrent bool) (transcript []s
 		}
 		return 0, nil, false
 	}
-	busyN, infoN := 0, 0
+	busyN, infoN, unkN := 0, 0, 0
+	unknownNext := false
+	unknownDatagram := []byte{6, 0, 0xff, 7, 6, 0x21, 0, 0, 0, 0, 0, 0, 0, 0, 2, 0, 0xaa, 0x55}
 	extra := func(e *refbmc.Event) (byte, []byte, bool) {
 		switch {
 		case e.NetFn == 6 && e.Cmd == 0x71:
@@ -163,6 +182,14 @@ func c19Worker(seed int64, id int, useUDP bool, concurrent bool) (transcript []s
 				return 0xc0, nil, true
 			}
 			return 0, []byte{byte(id), byte(busyN)}, true
+		case e.NetFn == 6 && e.Cmd == 0x72:
+			// the first attempt is answered by a datagram of a payload type nobody has registered
+			// (see the transport closure), the second by the answer
+			unkN++
+			if unkN%2 == 1 {
+				unknownNext = true
+			}
+			return 0, []byte{byte(id), byte(unkN)}, true
 		case e.NetFn == 6 && e.Cmd == 0x3d:
 			infoN++
 			return 0, []byte{byte(infoN), 0x24, 1, 2, 4, 0x11, 10, byte(id), byte(infoN), byte(infoN * 7), 2, byte(id), 3, byte(infoN), 5, 6, byte(infoN), byte(id)}, true
@@ -201,6 +228,10 @@ func c19Worker(seed int64, id int, useUDP bool, concurrent bool) (transcript []s
 			c19Stamp(id)
 			rsp := b.Handle(req)
 			runtime.Gosched()
+			if unknownNext {
+				unknownNext = false
+				return unknownDatagram, nil
+			}
 			return rsp, nil
 		})
 		t.Mode = memtr.Window
@@ -265,7 +296,7 @@ func c19Worker(seed int64, id int, useUDP bool, concurrent bool) (transcript []s
 		}
 	case 1:
 		for k := 0; k < 6; k++ {
-			script = append(script, 2, 16, 16, 15, 14, 16, 4)
+			script = append(script, 2, 16, 17, 15, 14, 16, 4)
 		}
 	case 0:
 		for k := 0; k < 8; k++ {
@@ -280,14 +311,14 @@ func c19Worker(seed int64, id int, useUDP bool, concurrent bool) (transcript []s
 		nops = len(script)
 	}
 	for i := 0; i < nops; i++ {
-		op := r.Intn(17)
+		op := r.Intn(18)
 		if len(script) > 0 {
 			op = script[i]
 		}
 		if sess == nil && op >= 3 && op != 13 && op != 100 {
 			op = 2
 		}
-		if op == 16 && useUDP {
+		if (op == 16 || op == 17) && useUDP {
 			op = 15 // a busy reply over UDP costs the library's own 500 ms back-off; the in-memory workers (zero back-off) take those
 		}
 		switch op {
@@ -347,6 +378,9 @@ func c19Worker(seed int64, id int, useUDP bool, concurrent bool) (transcript []s
 			v, err := dcmi.GetSensorInfo(ctx, sess)
 			if v != nil {
 				rec("dcmi", fmt.Sprintf("%v %v %v", v.Inlet, v.CPU, v.Baseboard), err)
+				if got := fmt.Sprintf("%v %v %v", append([]ipmi.RecordID{}, v.Inlet...), append([]ipmi.RecordID{}, v.CPU...), append([]ipmi.RecordID{}, v.Baseboard...)); err == nil && got != wantDCMI {
+					transcript = append(transcript, fmt.Sprintf("%sDCMI enumeration returned %s, this worker's BMC holds %s", c19Absolute, got, wantDCMI))
+				}
 			} else {
 				rec("dcmi", nil, err)
 			}
@@ -381,6 +415,10 @@ func c19Worker(seed int64, id int, useUDP bool, concurrent bool) (transcript []s
 			cmd := &RawCmd{Op: ipmi.Operation{Function: ipmi.NetworkFunctionAppReq, Command: 0x71}, NoReq: true}
 			code, err := sess.SendCommand(ctx, cmd)
 			rec("busy-then-ok", fmt.Sprintf("%v %x", code, cmd.Rsp.Data), err)
+		case 17:
+			cmd := &RawCmd{Op: ipmi.Operation{Function: ipmi.NetworkFunctionAppReq, Command: 0x72}, NoReq: true}
+			code, err := sess.SendCommand(ctx, cmd)
+			rec("unknown-payload-then-ok", fmt.Sprintf("%v %x", code, cmd.Rsp.Data), err)
 		case 13:
 			// the session (if any) is closed, the old connection is kept open and a new one is dialled
 			if sess != nil {
@@ -581,6 +619,23 @@ func c19Exec(run *ev.Run, c ev.Case) {
 	var rd c19Round
 	c.Decode(&rd)
 	run.Eval(rd.N)
+	if c19RoundsDone.Load() > 0 {
+		// between rounds nothing of the library is running: the documented moment for an application
+		// to register another vendor's payload type. The call must come back.
+		regDone := make(chan struct{})
+		go func() {
+			ipmi.RegisterOEMPayloadDescriptor(iana.Enterprise(0x1234), uint16(c19RoundsDone.Load()), gopacket.LayerTypePayload)
+			close(regDone)
+		}()
+		select {
+		case <-regDone:
+			run.Event("payload-descriptors-registered-between-rounds", 1)
+		case <-time.After(20 * time.Second):
+			run.Violation("C19:registration-blocked", fmt.Sprintf("before round N=%d rep %d: RegisterOEMPayloadDescriptor, called while no connection was in use, did not return within 20 s (process-wide state left behind by earlier connections)", rd.N, rd.Rep), c, nil)
+			os.Exit(run.Finish())
+		}
+	}
+	defer c19RoundsDone.Add(1)
 	c19TraceMu.Lock()
 	c19Trace = c19Trace[:0]
 	c19TraceMu.Unlock()
@@ -602,7 +657,15 @@ func c19Exec(run *ev.Run, c ev.Case) {
 		}(w)
 	}
 	close(startGate)
-	wg.Wait()
+	roundDone := make(chan struct{})
+	go func() { wg.Wait(); close(roundDone) }()
+	select {
+	case <-roundDone:
+	case <-time.After(240 * time.Second):
+		// every call of a worker carries a 40 s context
+		run.Violation("C19:round-never-finished", fmt.Sprintf("round N=%d rep %d: workers were still inside library calls 240 s after the start although every call has a 40 s context", rd.N, rd.Rep), c, nil)
+		os.Exit(run.Finish())
+	}
 	c19TraceOn.Store(false)
 	// solo references (cached per worker identity), computed AFTER the concurrent run so that
 	// first-use effects (lazily initialised shared state) happen under concurrency
@@ -635,6 +698,14 @@ func c19Exec(run *ev.Run, c ev.Case) {
 	run.Event("cross-worker-adjacencies", cross)
 	if cross > 0 {
 		run.Nontrivial(fmt.Sprintf("%x", sig[:8]))
+	}
+	for w := 0; w < rd.N; w++ {
+		for _, l := range got[w] {
+			if strings.HasPrefix(l, c19Absolute) {
+				run.Violation("C19:result-not-from-own-bmc", fmt.Sprintf("round N=%d rep %d worker %d (udp %v): %s", rd.N, rd.Rep, w, w%2 == 0, strings.TrimPrefix(l, c19Absolute)), c, nil)
+				break
+			}
+		}
 	}
 	verified, reproduced := 0, 0
 	for w := 0; w < rd.N; w++ {
